@@ -784,4 +784,33 @@ def shared_class_state(ctx, rule, class_names, consequence):
                         ctx.finding(rule, f'{cname}.{fld}:shared-module-object', ci, x,
                                     f'`self.{fld}` is bound to the module-level object `{a.value.id}` in {cname}.{mname} and changed in place in {sub}.{m2} (`{short(x, 50)}`): '
                                     f'all {cname} objects share that object, so {consequence}', where=f'{sub}.{m2}')
-    ctx.note(f'{rule}: {n} class-level containers and {m} module-level objects stored in instances examined in {len(class_names)} classes')
+    # ---- values memoised for the life of the object (functools.cached_property / lru_cache / cache on a method) that are computed from
+    # fields some method re-binds later: the memo is never dropped, so the accessor keeps answering for the old state
+    k = 0
+    MEMO_DECOS = ('cached_property', 'functools.cached_property', 'lru_cache', 'functools.lru_cache', 'cache', 'functools.cache')
+    for cname in class_names:
+        ci = prog.classes.get(cname)
+        if ci is None:
+            continue
+        for mname, fn in ci.methods.items():
+            decos = [unparse(d.func) if isinstance(d, ast.Call) else unparse(d) for d in fn.decorator_list]
+            if not any(d in MEMO_DECOS for d in decos):
+                continue
+            k += 1
+            reads = {x.attr for x in walk_shallow(fn) if is_self_attr(x) and isinstance(x.ctx, ast.Load)}
+            rebound = []
+            for sub in prog.subclasses(cname, strict=False) + [c for c in prog.mro(cname) if c in prog.classes]:
+                for m2, f2 in prog.classes[sub].methods.items():
+                    if m2 in ('__init__', '__new__'):
+                        continue
+                    for x in walk_shallow(f2):
+                        if is_self_attr(x) and isinstance(x.ctx, (ast.Store, ast.Del)) and x.attr in reads:
+                            rebound.append((sub, m2, x.attr))
+            ok = not rebound
+            ctx.ob(rule, f'{cname}.{mname}:memoised', ok, sample=f'{cname}.{mname} is memoised ({decos}); reads {sorted(reads)}; re-bound later: {sorted(set(r[2] for r in rebound))}')
+            if not ok:
+                sub, m2, fld = rebound[0]
+                ctx.finding(rule, f'{cname}.{mname}:stale-memo', ci, fn,
+                            f'{cname}.{mname} is memoised for the life of the object ({", ".join(d for d in decos if d in MEMO_DECOS)}) but is computed from `{fld}`, which '
+                            f'{sub}.{m2} re-binds: after that the accessor still answers for the old state, so {consequence}', where=f'{cname}.{mname}')
+    ctx.note(f'{rule}: {n} class-level containers, {m} module-level objects stored in instances and {k} memoised accessors examined in {len(class_names)} classes')
